@@ -166,14 +166,14 @@ func evmVerifyOp(kind string) OpFunc {
 // ---------------------------------------------------------------- independent layout readers
 
 var (
-	bigOne = big.NewInt(1)
-	two256 = new(big.Int).Lsh(bigOne, 256)
+	c12BigOne = big.NewInt(1)
+	c12Two256 = new(big.Int).Lsh(c12BigOne, 256)
 )
 
-func pow2(k int) *big.Int { return new(big.Int).Lsh(bigOne, uint(k)) }
+func c12Pow2(k int) *big.Int { return new(big.Int).Lsh(c12BigOne, uint(k)) }
 
-// parseSolType recognises uintN / intN for N in 8,16,…,256.
-func parseSolType(t string) (signed bool, bits int, ok bool) {
+// c12ParseSolType recognises uintN / intN for N in 8,16,…,256.
+func c12ParseSolType(t string) (signed bool, bits int, ok bool) {
 	for b := 8; b <= 256; b += 8 {
 		if t == fmt.Sprintf("uint%d", b) {
 			return false, b, true
@@ -185,35 +185,35 @@ func parseSolType(t string) (signed bool, bits int, ok bool) {
 	return false, 0, false
 }
 
-// rdUint reads an unsigned integer of the given width from a 32-byte word; nil if the word holds
+// c12RdUint reads an unsigned integer of the given width from a 32-byte word; nil if the word holds
 // a larger number (improperly encoded).
-func rdUint(w []byte, bits int) *big.Int {
+func c12RdUint(w []byte, bits int) *big.Int {
 	v := new(big.Int).SetBytes(w)
-	if v.Cmp(pow2(bits)) >= 0 {
+	if v.Cmp(c12Pow2(bits)) >= 0 {
 		return nil
 	}
 	return v
 }
 
-// rdInt reads a two's complement integer (over totalBits) and checks it lies in intN.
-func rdInt(w []byte, totalBits, bits int) *big.Int {
+// c12RdInt reads a two's complement integer (over totalBits) and checks it lies in intN.
+func c12RdInt(w []byte, totalBits, bits int) *big.Int {
 	v := new(big.Int).SetBytes(w)
 	if v.Bit(totalBits-1) == 1 {
-		v.Sub(v, pow2(totalBits))
+		v.Sub(v, c12Pow2(totalBits))
 	}
-	lo := new(big.Int).Neg(pow2(bits - 1))
-	hi := new(big.Int).Sub(pow2(bits-1), bigOne)
+	lo := new(big.Int).Neg(c12Pow2(bits - 1))
+	hi := new(big.Int).Sub(c12Pow2(bits-1), c12BigOne)
 	if v.Cmp(lo) < 0 || v.Cmp(hi) > 0 {
 		return nil
 	}
 	return v
 }
 
-func rdTyped(w []byte, signed bool, bits int) *big.Int {
+func c12RdTyped(w []byte, signed bool, bits int) *big.Int {
 	if signed {
-		return rdInt(w, 256, bits)
+		return c12RdInt(w, 256, bits)
 	}
-	return rdUint(w, bits)
+	return c12RdUint(w, bits)
 }
 
 // evmRead decodes b under the layout declared by the op's (parsed) opts. nil = does not decode.
@@ -221,7 +221,7 @@ func evmRead(kind string, op J, b []byte) any {
 	opts := jObj(op["opts"])
 	word := func(i int) []byte { return b[32*i : 32*i+32] }
 	hdr := func() J {
-		vf, ts, nf, lf, ex := rdUint(word(1), 32), rdUint(word(2), 32), rdUint(word(3), 192), rdUint(word(4), 192), rdUint(word(5), 32)
+		vf, ts, nf, lf, ex := c12RdUint(word(1), 32), c12RdUint(word(2), 32), c12RdUint(word(3), 192), c12RdUint(word(4), 192), c12RdUint(word(5), 32)
 		if vf == nil || ts == nil || nf == nil || lf == nil || ex == nil {
 			return nil
 		}
@@ -233,7 +233,7 @@ func evmRead(kind string, op J, b []byte) any {
 			return nil
 		}
 		d := hdr()
-		bm, bid, ask := rdInt(word(6), 256, 192), rdInt(word(7), 256, 192), rdInt(word(8), 256, 192)
+		bm, bid, ask := c12RdInt(word(6), 256, 192), c12RdInt(word(7), 256, 192), c12RdInt(word(8), 256, 192)
 		if d == nil || bm == nil || bid == nil || ask == nil {
 			return nil
 		}
@@ -252,11 +252,11 @@ func evmRead(kind string, op J, b []byte) any {
 		for _, el := range jArr(opts["abi"]) {
 			vs := []any{}
 			for _, e := range jArr(el) {
-				signed, bits, ok := parseSolType(jStr(jget(e, "type")))
+				signed, bits, ok := c12ParseSolType(jStr(jget(e, "type")))
 				if !ok || 32*pos+32 > len(b) {
 					return nil
 				}
-				v := rdTyped(word(pos), signed, bits)
+				v := c12RdTyped(word(pos), signed, bits)
 				if v == nil {
 					return nil
 				}
@@ -308,7 +308,7 @@ func evmRead(kind string, op J, b []byte) any {
 					vs = append(vs, nil)
 					continue
 				}
-				signed, bits, ok := parseSolType(t)
+				signed, bits, ok := c12ParseSolType(t)
 				if !ok {
 					return nil
 				}
@@ -318,7 +318,7 @@ func evmRead(kind string, op J, b []byte) any {
 				}
 				var v *big.Int
 				if signed {
-					v = rdInt(w, bits, bits)
+					v = c12RdInt(w, bits, bits)
 				} else {
 					v = new(big.Int).SetBytes(w)
 				}
